@@ -442,6 +442,8 @@ func checkC10(w *World) {
 		case *ssa.BinOp:
 			if k, isK := constInt(x.Y); x.Op == token.ADD && isK && k >= 1 {
 				ok, why = true, "an incremented counter value"
+			} else if ok2, _ := addsAtLeastOne(x, 0); x.Op == token.ADD && ok2 {
+				ok, why = true, "the counter plus one plus the number of nodes already created in this loop"
 			} else {
 				why = "a " + x.Op.String() + " expression"
 			}
@@ -586,6 +588,14 @@ func checkC10(w *World) {
 						return false
 					}
 					if _, isB := c.Call.Value.(*ssa.Builtin); !isB {
+						// a cursor that some other function of the package made: it has to be a constructor's own
+						// result (a copy of an existing cursor keeps that cursor's parent and lists)
+						if sc := staticCallee(c); sc != nil && fnPkgKey(sc) == "store" {
+							if _, isCur := nodeOrCursor(c.Type(), sf); isCur && !returnsConstructed(sc, sf, 0) {
+								n5++
+								w.check(P, "R10.5", fmt.Sprintf("value put into the %s list in %s", role, fn.Name()), c.Pos(), false, "the cursor comes from "+sc.Name()+", which does not return the result of a cursor constructor: an object assembled from an existing cursor (a struct copy) keeps that cursor's Parent(), position or lists")
+							}
+						}
 						return false
 					}
 				}
@@ -699,6 +709,60 @@ func checkC10(w *World) {
 				}
 			}
 			w.check(P, "R10.5", fmt.Sprintf("replacement of a slot of the %s list in %s", role, fn.Name()), c.Pos(), okParent && okPos, fmt.Sprintf("the replacing cursor is constructed with the list owner as parent: %v; with the position of the cursor it replaces (so the list stays in ascending Pos() order): %v", okParent, okPos))
+		})
+	})
+	// a declaration is appended only after the search for its prefix came up empty: in a function that replaces an
+	// entry of a namespaces list by prefix, the append of a new entry is dominated by the head of that search loop
+	w.forAllFuncs("store", func(fn *ssa.Function) {
+		var searchHead *ssa.BasicBlock
+		allInstrs(fn, func(in ssa.Instruction) {
+			st, ok := in.(*ssa.Store)
+			if !ok {
+				return
+			}
+			ia, ok := st.Addr.(*ssa.IndexAddr)
+			if !ok || !(ascendingCounter(ia.Index) || isCounterPhi2(ia.Index)) {
+				return
+			}
+			if ld, ok := ia.X.(*ssa.UnOp); ok {
+				if fa, ok := ld.X.(*ssa.FieldAddr); ok && sf.roleOf(fa.Field) == "namespaces" {
+					// the loop header: the block where the counter phi lives
+					if ph, ok := ia.Index.(*ssa.Phi); ok {
+						searchHead = ph.Block()
+					} else if bo, ok := ia.Index.(*ssa.BinOp); ok {
+						if ph, ok := bo.X.(*ssa.Phi); ok {
+							searchHead = ph.Block()
+						}
+					}
+				}
+			}
+		})
+		if searchHead == nil {
+			return
+		}
+		allInstrs(fn, func(in ssa.Instruction) {
+			c, ok := in.(*ssa.Call)
+			if !ok {
+				return
+			}
+			b, ok := c.Call.Value.(*ssa.Builtin)
+			if !ok || b.Name() != "append" {
+				return
+			}
+			toNS := false
+			for _, rr := range referrers(c) {
+				if st, ok := rr.(*ssa.Store); ok {
+					if fa, ok := st.Addr.(*ssa.FieldAddr); ok && sf.roleOf(fa.Field) == "namespaces" {
+						toNS = true
+					}
+				}
+			}
+			if !toNS {
+				return
+			}
+			n5++
+			dom := searchHead.Dominates(c.Block())
+			w.check(P, "R10.5", "a new namespace entry is appended only after the search by prefix in "+fn.Name(), c.Pos(), dom, fmt.Sprintf("the append is reached only through the loop that looks for an entry with the same prefix: %v (a path round the search adds a second node for a prefix the element already declares)", dom))
 		})
 	})
 	// the by-prefix search covers the element's whole namespace list
@@ -1015,6 +1079,10 @@ func addsAtLeastOne(v ssa.Value, depth int) (bool, string) {
 			_ = adv
 		case *ssa.Parameter, *ssa.Call, *ssa.UnOp, *ssa.Extract:
 		case *ssa.BinOp:
+			// the number of entries added to a list since an earlier length of it was taken: len(L) - len0(L)
+			if x.Op == token.SUB && isLenOf(x.X, nil) && isLenOf(x.Y, nil) {
+				continue
+			}
 			return false, "a " + x.Op.String() + " expression"
 		default:
 			return false, describe(t)
@@ -1092,4 +1160,61 @@ func mustConstruct(fn *ssa.Function, sf *storeFacts, inProgress map[*ssa.Functio
 	}
 	walk(fn.Blocks[0])
 	return ok
+}
+
+// returnsConstructed: every value fn returns (of cursor type) is the result of a cursor constructor (possibly through
+// another such helper), a parameter handed through, or an element of a list.
+func returnsConstructed(fn *ssa.Function, sf *storeFacts, depth int) bool {
+	if depth > 3 || len(fn.Blocks) == 0 {
+		return false
+	}
+	ok := true
+	n := 0
+	allInstrs(fn, func(in ssa.Instruction) {
+		ret, isRet := in.(*ssa.Return)
+		if !isRet {
+			return
+		}
+		for _, rv := range ret.Results {
+			if _, isCur := nodeOrCursor(rv.Type(), sf); !isCur {
+				continue
+			}
+			n++
+			var check func(v ssa.Value, d int) bool
+			check = func(v ssa.Value, d int) bool {
+				if d > 6 {
+					return false
+				}
+				switch x := stripConv(v).(type) {
+				case *ssa.Call:
+					sc := staticCallee(x)
+					if _, isCtor := sf.Ctors[sc]; isCtor {
+						return true
+					}
+					return sc != nil && fnPkgKey(sc) == "store" && returnsConstructed(sc, sf, depth+1)
+				case *ssa.Phi:
+					for _, e := range x.Edges {
+						if !check(e, d+1) {
+							return false
+						}
+					}
+					return true
+				case *ssa.MakeInterface:
+					return check(x.X, d+1)
+				case *ssa.Parameter:
+					return true
+				case *ssa.Const:
+					return true
+				case *ssa.UnOp:
+					_, isIA := x.X.(*ssa.IndexAddr)
+					return isIA
+				}
+				return false
+			}
+			if !check(rv, 0) {
+				ok = false
+			}
+		}
+	})
+	return ok && n > 0
 }
